@@ -33,6 +33,9 @@ CHECK_DEADLOCK FALSE
 L32 = 1 << 10
 
 
+import zlib
+from ..routes import reroute
+
 def r32(x):
     return rat(x, L32)
 
@@ -58,6 +61,7 @@ def line_event(case, di, si):
     ev = {"k": "line", "case": case, "dir": di, "raised": False}
     scan = LineScan(start=(float(st[0]), float(st[1])), end=(float(end[0]), float(end[1])), endpoint=case["endpoint"],
                     **spec_kwargs(case["spec"]))
+    scan, ev["route"] = reroute(scan, zlib.crc32(json.dumps(case, sort_keys=True, default=str).encode()) + di + 2 * si)   # through a copy / deepcopy / pickle
     pos = scan.get_positions()
     md = scan.ensemble_axes_metadata
     ok = all(ex32(v) for v in pos.ravel()) and ex32(scan.sampling)
@@ -134,6 +138,7 @@ def grid_event(cx, cy, si, blocks=None):
         return None, False
     scan = GridScan(start=(float(st[0]), float(st[1])), end=(float(end[0]), float(end[1])),
                     endpoint=(cx["endpoint"], cy["endpoint"]), **kw)
+    scan, _route = reroute(scan, zlib.crc32(json.dumps([cx, cy], sort_keys=True, default=str).encode()))
     pos = scan.get_positions() if blocks is None else assemble_blocks(scan, blocks[0], blocks[1])
     md = scan.ensemble_axes_metadata
     xs, ys = pos[:, 0, 0], pos[0, :, 1]
